@@ -30,11 +30,12 @@ const (
 	defHighPriorityNoCommittee
 	defNotValidBeforeFuture
 	defNoFunds
+	defNamedByOnChainConflicts
 	numDefects
 )
 
 var defectNames = [...]string{"valid", "expired", "valid-until-too-far", "already-on-chain", "bad-witness", "fee-one-short",
-	"highpriority-without-committee", "notvalidbefore-in-future", "sender-cannot-pay"}
+	"highpriority-without-committee", "notvalidbefore-in-future", "sender-cannot-pay", "named-by-on-chain-conflicts"}
 
 // simpleTransfer builds an unsigned GAS transfer from account a.
 func (s *netSim) simpleTransfer(a neotest.SingleSigner, to util.Uint160, amount int64) *transaction.Transaction {
@@ -104,6 +105,10 @@ func (s *netSim) clientTx(t NetTx) {
 				}
 			}
 		})
+		return
+	}
+	if t.Defect%numDefects == defNamedByOnChainConflicts {
+		s.conflictScenario(t)
 		return
 	}
 	// ---- a transaction invalid in exactly one respect
@@ -481,3 +486,73 @@ func (s *netSim) checkDBPath(v *vnode) {
 var _ = payload.MaxSize
 var _ = hash.Sha256
 var _ = smartcontract.GetDefaultHonestNodeCount
+
+// conflictScenario: account a signs C carrying 2-3 Conflicts attributes that name valid transactions V0..Vn of the
+// same signer; C goes to every node now, the victims are submitted a few seconds later. Wherever C is on chain by
+// then, a victim must not be admitted.
+func (s *netSim) conflictScenario(t NetTx) {
+	r := s.r
+	bc := r.P.BC
+	a := r.prod.kr.acct(t.Op.A)
+	nv := 2 + t.Op.X%2
+	var victims []*transaction.Transaction
+	c := s.simpleTransfer(a, r.prod.kr.acctHash(t.Op.B), 3)
+	c.ValidUntilBlock = bc.BlockHeight() + 8
+	for i := 0; i < nv; i++ {
+		v := s.simpleTransfer(a, r.prod.kr.acctHash(t.Op.B+i), int64(5+i))
+		v.ValidUntilBlock = bc.BlockHeight() + 12
+		neotest.AddNetworkFee(r.P.tb, bc, v, a)
+		if err := a.SignTx(bc.GetConfig().Magic, v); err != nil {
+			sim.Harnessf("sign: %v", err)
+		}
+		victims = append(victims, v)
+		c.Attributes = append(c.Attributes, transaction.Attribute{Type: transaction.ConflictsT, Value: &transaction.Conflicts{Hash: v.Hash()}})
+	}
+	neotest.AddNetworkFee(r.P.tb, bc, c, a)
+	c.NetworkFee += 10_000_000
+	if err := a.SignTx(bc.GetConfig().Magic, c); err != nil {
+		sim.Harnessf("sign: %v", err)
+	}
+	r.out.Faults["defective_tx/named-by-on-chain-conflicts"]++
+	r.log.Addf("t=%dms client sends a transaction with %d Conflicts attributes; the named ones follow later", s.now()/time.Millisecond, nv)
+	s.sendToTargets(c, 0xff)
+	ch := c.Hash()
+	for i, v := range victims {
+		v := v
+		s.conflictVictims[v.Hash()] = ch
+		s.at(s.now()+time.Duration(3500+700*i)*time.Millisecond, func() { s.sendToTargets(v, t.Targets|1) })
+	}
+}
+
+// rulesTx (C17): a transfer whose signer has the Rules scope with one Boolean condition; the wire form is sent
+// canonically to some nodes and with the condition's `true` written as 0x02 (accepted by the decoder) to others.
+func (s *netSim) rulesTx(t NetTx) {
+	r := s.r
+	bc := r.P.BC
+	a := r.prod.kr.acct(t.Op.A)
+	tx := s.simpleTransfer(a, r.prod.kr.acctHash(t.Op.B), 2)
+	cond := transaction.ConditionBoolean(true)
+	tx.Signers[0].Scopes = transaction.Rules
+	tx.Signers[0].Rules = []transaction.WitnessRule{{Action: transaction.WitnessAllow, Condition: &cond}}
+	neotest.AddNetworkFee(r.P.tb, bc, tx, a)
+	if err := a.SignTx(bc.GetConfig().Magic, tx); err != nil {
+		sim.Harnessf("sign: %v", err)
+	}
+	raw := msgBytes(network.CMDTX, tx)
+	// action Allow (01), condition type Boolean (00), value true (01)
+	pat := []byte{0x01, 0x00, 0x01}
+	i := bytes.Index(raw, pat)
+	r.out.Probes["rules_scope_tx"]++
+	for n := range s.nodes {
+		if t.Targets&(1<<uint(n)) == 0 {
+			continue
+		}
+		m := raw
+		if i > 0 && n%2 == 1 {
+			m = append([]byte{}, raw...)
+			m[i+2] = 0x02
+			r.out.Faults["wire_noncanonical_bool"]++
+		}
+		s.clientSend(n, m)
+	}
+}
